@@ -155,7 +155,7 @@ mutant("is_first_mask_2", ["C12"], [("src/arc_union.rs", "self.p.as_ptr() as usi
 mutant("clone_second_as_first", ["C12"], [("src/arc_union.rs", "ArcUnionBorrow::Second(x) => ArcUnion::from_second(x.clone_arc()),", "ArcUnionBorrow::Second(x) => unsafe { ArcUnion::new(Arc::into_raw(x.clone_arc()) as *mut _) },")])
 mutant("as_second_swapped", ["C12"], [("src/arc_union.rs", "            ArcUnionBorrow::First(_) => None,\n            ArcUnionBorrow::Second(x) => Some(x),", "            ArcUnionBorrow::First(_) => None,\n            ArcUnionBorrow::Second(_x) => None,")])
 mutant("union_eq_mixed_true", ["C12", "C14"], [("src/arc_union.rs", "            (_, _) => false,", "            (_, _) => ArcUnion::ptr_eq(self, other) || true,")])
-mutant("arcinner_not_repr_c", ["C12", "C05", "C11"], [("src/arc.rs", "#[repr(C)]\npub(crate) struct ArcInner<T: ?Sized> {", "pub(crate) struct ArcInner<T: ?Sized> {")])
+mutant("arcinner_not_repr_c", ["C12", "C05"], [("src/arc.rs", "#[repr(C)]\npub(crate) struct ArcInner<T: ?Sized> {", "pub(crate) struct ArcInner<T: ?Sized> {")])
 benign("strip_mask_equivalent_const", [("src/arc_union.rs", "let ptr = ((self.p.as_ptr() as usize) & !0x1) as *const B;", "let ptr = ((self.p.as_ptr() as usize) & (usize::MAX - 1)) as *const B;")])
 benign("tag_by_add", [("src/arc_union.rs", "unsafe { Self::new(((Arc::into_raw(other) as usize) | 0x1) as *mut _) }", "unsafe { Self::new(((Arc::into_raw(other) as usize) + 1) as *mut _) }")])
 
@@ -170,3 +170,26 @@ mutant("arc_phantom_not_owning_under_eyepatch", ["C13"], [("src/arc.rs", "    pu
 benign("offsetarc_phantom_ptr_harmless_without_may_dangle", [("src/offset_arc.rs", "    pub(crate) phantom: PhantomData<T>,\n}\n\nunsafe impl<T: Sync + Send> Send for OffsetArc<T> {}", "    pub(crate) phantom: PhantomData<*const T>,\n}\n\nunsafe impl<T: Sync + Send> Send for OffsetArc<T> {}")])
 mutant("arcunion_extra_send_impl_bounds_swapped", ["C13"], [("src/arc_union.rs", "unsafe impl<A: Sync + Send, B: Send + Sync> Send for ArcUnion<A, B> {}", "unsafe impl<A: Sync + Send, B: Send> Send for ArcUnion<A, B> {}")])
 mutant("get_mut_returns_longer_lifetime", ["C13"], [("src/arc.rs", "    pub fn get_mut(this: &mut Self) -> Option<&mut T> {", "    pub fn get_mut<'x, 'y>(this: &'x mut Self) -> Option<&'y mut T> {")])
+
+# ------------------------------------------------------------------ C05
+mutant("alloc_no_outer_pad", ["C05"], [("src/arc.rs", "        let layout = Layout::new::<ArcInner<()>>()\n            .extend(value_layout)\n            .unwrap()\n            .0\n            .pad_to_align();\n\n        let ptr = NonNull::new", "        let layout = Layout::new::<ArcInner<()>>()\n            .extend(value_layout)\n            .unwrap()\n            .0;\n\n        let ptr = NonNull::new")])
+mutant("header_slice_len_plus_one_short", ["C05"], [("src/arc.rs", ".extend(Layout::array::<T>(len).unwrap())", ".extend(Layout::array::<T>(len.saturating_sub(1)).unwrap())")])
+benign("header_and_array_swapped_same_total", [("src/arc.rs", "        let layout = Layout::new::<H>()\n            .extend(Layout::array::<T>(len).unwrap())\n            .unwrap()\n            .0\n            .pad_to_align();", "        let layout = Layout::array::<T>(len).unwrap()\n            .extend(Layout::new::<H>())\n            .unwrap()\n            .0\n            .pad_to_align();")])
+mutant("new_uninit_layout_without_count", ["C05"], [("src/unique_arc.rs", "let layout = Layout::new::<ArcInner<MaybeUninit<T>>>();", "let layout = Layout::new::<MaybeUninit<T>>();")])
+mutant("headerslice_not_repr_c", ["C05"], [("src/header.rs", "#[derive(Debug, Copy, Clone, Eq, PartialEq, Hash, PartialOrd, Ord)]\n#[repr(C)]\npub struct HeaderSlice<H, T: ?Sized> {", "#[derive(Debug, Copy, Clone, Eq, PartialEq, Hash, PartialOrd, Ord)]\npub struct HeaderSlice<H, T: ?Sized> {")])
+mutant("array_layout_wrapping_mul", ["C05"], [("src/arc.rs", ".extend(Layout::array::<T>(len).unwrap())", ".extend(unsafe { Layout::from_size_align_unchecked(core::mem::size_of::<T>().wrapping_mul(len), core::mem::align_of::<T>()) })")])
+mutant("count_prefix_u32", ["C05"], [("src/arc.rs", "        let layout = Layout::new::<ArcInner<()>>()\n            .extend(value_layout)\n            .unwrap()\n            .0\n            .pad_to_align();\n\n        let ptr = NonNull::new", "        let layout = Layout::new::<u32>()\n            .extend(value_layout)\n            .unwrap()\n            .0\n            .pad_to_align();\n\n        let ptr = NonNull::new")])
+mutant("offset_of_data_hardwired_8", ["C05", "C11"], [("src/arc.rs", "        let layout = Layout::new::<atomic::AtomicUsize>();\n        let (_, offset) = layout.extend(Layout::for_value(value)).unwrap();\n        offset", "        let _ = value;\n        core::mem::size_of::<usize>()")])
+mutant("protected_not_transparent", ["C05", "C10"], [("src/header.rs", "#[derive(Debug, Hash, Eq, PartialEq, Ord, PartialOrd)]\n#[repr(transparent)]\npub struct HeaderSliceWithLengthProtected<H, T> {", "#[derive(Debug, Hash, Eq, PartialEq, Ord, PartialOrd)]\npub struct HeaderSliceWithLengthProtected<H, T> {")])
+benign("inner_pad_removed", [("src/arc.rs", "        let layout = Layout::new::<H>()\n            .extend(Layout::array::<T>(len).unwrap())\n            .unwrap()\n            .0\n            .pad_to_align();", "        let layout = Layout::new::<H>()\n            .extend(Layout::array::<T>(len).unwrap())\n            .unwrap()\n            .0;")])
+benign("count_prefix_usize", [("src/arc.rs", "        let layout = Layout::new::<ArcInner<()>>()\n            .extend(value_layout)\n            .unwrap()\n            .0\n            .pad_to_align();\n\n        let ptr = NonNull::new", "        let layout = Layout::new::<usize>()\n            .extend(value_layout)\n            .expect(\"layout\")\n            .0\n            .pad_to_align();\n\n        let ptr = NonNull::new")])
+
+# ------------------------------------------------------------------ C11
+mutant("as_ptr_through_reference", ["C11"], [("src/arc.rs", "unsafe { ptr::addr_of_mut!((*self.ptr()).data) }", "&self.inner().data as *const T")])
+mutant("from_raw_hardwired_offset", ["C11", "C05"], [("src/arc.rs", "let arc_inner_ptr = ptr.byte_sub(offset_of_data);", "let _ = offset_of_data;\n        let arc_inner_ptr = ptr.byte_sub(core::mem::size_of::<usize>());")])
+mutant("refcnt_as_ptr_block", ["C11"], [("src/arc_swap_support.rs", "    fn as_ptr(me: &Self) -> *mut Self::Base {\n        Arc::as_ptr(me) as *mut _", "    fn as_ptr(me: &Self) -> *mut Self::Base {\n        Arc::heap_ptr(me) as *mut _")], features=["--all-features"], toolchain="+nightly")
+mutant("arc_not_transparent", ["C11"], [("src/arc.rs", "#[repr(transparent)]\npub struct Arc<T: ?Sized> {", "pub struct Arc<T: ?Sized> {")])
+mutant("heap_ptr_returns_data", ["C11"], [("src/arc.rs", "        self.p.as_ptr() as *const ArcInner<T> as *const c_void", "        self.as_ptr() as *const c_void")])
+mutant("borrow_arc_stores_block", ["C11", "C01"], [("src/arc.rs", "unsafe { ArcBorrow(NonNull::new_unchecked(self.as_ptr() as *mut T), PhantomData) }", "unsafe { ArcBorrow(NonNull::new_unchecked(self.ptr() as *mut T), PhantomData) }")])
+benign("offsetarc_retarget_api_harmless", [("src/offset_arc.rs", "    /// Clone it as an `Arc`\n    #[inline]\n    pub fn clone_arc(&self) -> Arc<T> {", "    /// Re-point\n    pub fn retarget(&mut self, other: OffsetArc<T>) {\n        let old = core::mem::replace(&mut self.ptr, other.ptr);\n        core::mem::forget(other);\n        drop(OffsetArc { ptr: old, phantom: PhantomData::<T> });\n    }\n\n    /// Clone it as an `Arc`\n    #[inline]\n    pub fn clone_arc(&self) -> Arc<T> {")])
+benign("as_ptr_addr_of_const", [("src/arc.rs", "unsafe { ptr::addr_of_mut!((*self.ptr()).data) }", "unsafe { ptr::addr_of!((*self.ptr()).data) }")])
